@@ -63,6 +63,10 @@ type c07Sc struct {
 	GenPanicAt int     `json:"gen_panic_at"`  // -1 none, else the generator panics after sending that many items
 	GenWait    string  `json:"gen_wait,omitempty"`
 	Saturate   bool    `json:"saturate,omitempty"` // mappers linger to overlap as much as the pool allows
+	// Endless > 0: the generator keeps offering items (up to N) until the call has returned, or until it has
+	// offered Endless items after the context was cancelled (so it is finite for implementations that drain
+	// the source before returning)
+	Endless int `json:"endless,omitempty"`
 	// Probe: the last item is a probe: when its send completes gate "px" is closed and the generator waits for "rw"
 	Probe bool `json:"probe,omitempty"`
 	// OutVal selects what the reducer writes: "" (a tagged struct) | nil | int0 | empty-string | false | nil-ptr | empty-struct
@@ -145,6 +149,9 @@ type c07Run struct {
 	pxAt             int64 // stamp taken when the probe item's send completed
 	pxGauge          int32 // mappers in flight at that moment
 	softTO           bool  // a soft wait expired: only the weaker oracle applies
+	callReturned     int32 // set by the harness when the entry point returned
+	mappedAfterCtx   int64 // mapper invocations that began after the context cancellation had completed
+	offeredAfterCtx  int64 // items the generator offered after the context cancellation had completed
 	started          int32
 	active           int32 // user callbacks currently running
 	ctxStart, ctxEnd int64
@@ -355,6 +362,9 @@ func (x *c07Run) mapperEnter(item any) (id int, it c07It, ok bool) {
 		return 0, c07It{}, false
 	}
 	x.mapSeen[id]++
+	if x.ctxEnd != 0 {
+		x.mappedAfterCtx++
+	}
 	x.mu.Unlock()
 	if id < len(x.sc.Items) {
 		it = x.sc.Items[id]
@@ -557,6 +567,20 @@ func (x *c07Run) generate(source chan<- any) {
 			x.doPanic("g")
 		}
 		if i < x.sc.N {
+			if x.sc.Endless > 0 {
+				if atomic.LoadInt32(&x.callReturned) != 0 {
+					return
+				}
+				x.mu.Lock()
+				if x.ctxEnd != 0 {
+					x.offeredAfterCtx++
+				}
+				over := x.offeredAfterCtx > int64(x.sc.Endless)
+				x.mu.Unlock()
+				if over {
+					return
+				}
+			}
 			source <- i
 			if x.sc.Probe && i == x.sc.N-1 {
 				x.mu.Lock()
